@@ -214,8 +214,9 @@ impl BlockDir {
         let bytes = self.get_block_content(&address.hash, monitor).await?;
         let len = address.len as usize;
         let start = address.start as usize;
-        let end = start + len;
         let actual_len = bytes.len();
+        // An address from a damaged index may be absurdly large: don't overflow.
+        let end = start.saturating_add(len);
         if end > actual_len {
             return Err(Error::BlockTooShort {
                 hash: address.hash.clone(),
